@@ -10,7 +10,12 @@ package main
 //	httpStatusRejects / grpcStatusRejects cfg got : Bool     the status_code comparison of both assertions
 //	grpcAssertSteps                      the order of the checks of the gRPC assertion (status, empty payload, nil message, contains)
 //	httpAssertSteps                      the order of the checks of the http assertion
-//	checkHTTP2Conds, notHTTP2PanicMsg, nextProtoTLS, alpnAlertOp, alpnAlertText   panicOnHTTP1Client / checkHTTP2
+//	checkHTTP2Conds, notHTTP2PanicMsg, nextProtoTLS, panicOnHTTP1Do                panicOnHTTP1Client / checkHTTP2
+//	doErrPanics a b c : Bool, doErrUnknownAtoms  the condition of the panicking `if` of the error branch of Do as a
+//	                                     boolean function of its atoms (errors.As / Op == "remote error" / text of alert 120)
+//	varHeaderProcess, varJsonpathProcess, varXpathProcess, xpathValuesFromDOM, scenarioPostLoop
+//	                                     the statements of the extractors and of the postprocessor loop in a canonical
+//	                                     spelling (locals renamed to v<i>, error texts dropped)
 //	recoverFormat                        instance.Run: the deferred recover() and the error it turns a panic into
 //	explicitPanics                       every `panic(..)` / `<logger>.Panic(..)` call of the scanned files
 //	uncheckedAssertions                  every type assertion WITHOUT comma-ok (outside type switches)
@@ -25,6 +30,7 @@ import (
 	"fmt"
 	"go/ast"
 	"go/constant"
+	"go/printer"
 	"go/token"
 	"go/types"
 	"os"
@@ -663,6 +669,42 @@ func respGuardExtra(t *tr) string {
 		b.WriteString(fmt.Sprintf("/-- number of `.Shoot(` calls lexically inside `instance.Run` (+1000 per `go` statement) -/\ndef shootCallsInRun : Nat := %d\n\n", shootCalls))
 	}
 
+	// ---------------------------------------------------------------- 5b. the extractors' Process functions and the postprocessor loop
+	// statement by statement, in a canonical spelling: every local variable (parameters included) is renamed to v<i> in
+	// the order of first occurrence, the texts of error messages are dropped. Renaming locals or rewording a message is
+	// harmless; a changed guard, a dropped error return, a different loop is not.
+	for _, w := range []struct{ recv, fn, def, doc string }{
+		{"VarHeaderPostprocessor", "Process", "varHeaderProcess", "`VarHeaderPostprocessor.Process` (model `varHeaderWith`)"},
+		{"VarJsonpathPostprocessor", "Process", "varJsonpathProcess", "`VarJsonpathPostprocessor.Process` (model `varJsonpath`)"},
+		{"VarXpathPostprocessor", "Process", "varXpathProcess", "`VarXpathPostprocessor.Process` (model `varXpath`)"},
+		{"VarXpathPostprocessor", "getValuesFromDOM", "xpathValuesFromDOM", "`VarXpathPostprocessor.getValuesFromDOM` (model `varXpath`: invalid / scalar expression ⇒ error)"},
+	} {
+		fd := rgFindMethod(p, w.recv, w.fn)
+		if fd == nil {
+			t.errs = append(t.errs, w.recv+"."+w.fn+" not found")
+			continue
+		}
+		b.WriteString("/-- the statements of " + w.doc + ", locals renamed canonically, error texts dropped -/\ndef " + w.def + " : List String := " +
+			leanStrList(respguardCanonStmts(p, fd.Body.List)) + "\n\n")
+	}
+	if ss := rgFindMethod(all[rgGunScn], "ScenarioGun", "shootStep"); ss == nil {
+		t.errs = append(t.errs, "ScenarioGun.shootStep not found")
+	} else {
+		sp := all[rgGunScn]
+		var loop ast.Stmt
+		for _, st := range ss.Body.List {
+			if rs, ok := st.(*ast.RangeStmt); ok && strings.Contains(strings.ToLower(oneLine(nodeString(sp, rs.X))), "processors") {
+				loop = rs
+			}
+		}
+		if loop == nil {
+			gsFail(t, sp, ss, "ScenarioGun.shootStep: no `range processors` loop")
+		} else {
+			b.WriteString("/-- the postprocessor loop of `ScenarioGun.shootStep` (model `runPPs`: the first error ends it; the body reader is\nrewound after every postprocessor), canonical spelling -/\ndef scenarioPostLoop : List String := " +
+				leanStrList(respguardCanonStmts(sp, []ast.Stmt{loop})) + "\n\n")
+		}
+	}
+
 	// ---------------------------------------------------------------- 6. inventory of run-time panic sites
 	type scan struct {
 		pkg   *packages.Package
@@ -770,6 +812,67 @@ func respguardBoolCond(p *packages.Package, e ast.Expr, atoms map[string]string,
 	}
 	*unknown = append(*unknown, txt)
 	return "false"
+}
+
+// respguardCanonStmts prints statements with every LOCAL variable (declared inside the enclosing function: parameters,
+// receivers, := / var / range variables) renamed to v<i> in the order of first occurrence within these statements, and
+// with the format / message argument of fmt.Errorf / errors.New / errors.Errorf replaced by "…". The AST is restored.
+func respguardCanonStmts(p *packages.Package, stmts []ast.Stmt) []string {
+	names := map[types.Object]string{}
+	type idEdit struct {
+		id  *ast.Ident
+		old string
+	}
+	type litEdit struct {
+		lit *ast.BasicLit
+		old string
+	}
+	var ids []idEdit
+	var lits []litEdit
+	for _, st := range stmts {
+		ast.Inspect(st, func(n ast.Node) bool {
+			switch x := n.(type) {
+			case *ast.Ident:
+				obj := p.TypesInfo.ObjectOf(x)
+				v, ok := obj.(*types.Var)
+				if !ok || v.IsField() || v.Parent() == nil || v.Parent() == v.Pkg().Scope() || v.Parent() == types.Universe {
+					return true
+				}
+				nm, seen := names[obj]
+				if !seen {
+					nm = fmt.Sprintf("v%d", len(names))
+					names[obj] = nm
+				}
+				ids = append(ids, idEdit{x, x.Name})
+				x.Name = nm
+			case *ast.CallExpr:
+				fn := oneLine(nodeString(p, x.Fun))
+				if (fn == "fmt.Errorf" || fn == "errors.New" || fn == "errors.Errorf") && len(x.Args) > 0 {
+					if bl, ok := x.Args[0].(*ast.BasicLit); ok && bl.Kind == token.STRING {
+						lits = append(lits, litEdit{bl, bl.Value})
+						bl.Value = `"…"`
+					}
+				}
+			}
+			return true
+		})
+	}
+	var out []string
+	for _, st := range stmts {
+		var sb strings.Builder
+		if err := printer.Fprint(&sb, token.NewFileSet(), st); err != nil {
+			out = append(out, "PRINT-ERROR "+err.Error())
+			continue
+		}
+		out = append(out, oneLine(sb.String()))
+	}
+	for _, e := range ids {
+		e.id.Name = e.old
+	}
+	for _, e := range lits {
+		e.lit.Value = e.old
+	}
+	return out
 }
 
 func rgIfSkeleton(p *packages.Package, blk *ast.BlockStmt) string {
